@@ -57,6 +57,8 @@ func zzvC11Configs(thorough bool) map[string]*telemetry.UploadConfig {
 		"basic":       mk([]string{"linux"}, []string{"amd64"}, []string{"go1.21.0"}, p1([]string{"c", "d:{a,b}", "g:{a,b}", "h:{a}"}, []string{"s"})),
 		"two-os":      mk([]string{"linux", "darwin"}, []string{"amd64", "arm64"}, []string{"go1.21.0", "go1.22.0"}, p1([]string{"c"}, []string{"s", "c"}), p2),
 		"no-stacks":   mk([]string{"linux"}, []string{"amd64"}, []string{"go1.21.0"}, p1([]string{"c:{a}", "s"}, nil)),
+		// one program described by two entries: its versions, counters and stacks are those of both
+		"program-listed-twice": mk([]string{"linux"}, []string{"amd64"}, []string{"go1.21.0"}, &telemetry.ProgramConfig{Name: "example.com/p1", Versions: []string{"v1.0.0"}, Counters: []telemetry.CounterConfig{{Name: "c", Rate: 1}}}, &telemetry.ProgramConfig{Name: "example.com/p1", Versions: []string{"v1.1.0"}, Counters: []telemetry.CounterConfig{{Name: "d:{a,b}", Rate: 1}}, Stacks: []telemetry.CounterConfig{{Name: "s", Rate: 1, Depth: 5}}}),
 		"no-programs": mk([]string{"linux"}, []string{"amd64"}, []string{"go1.21.0"}),
 		// a name configured as the other kind than the data's: stack "u" vs counter u, counter "v" vs stack v
 		"kinds-crossed": mk([]string{"linux"}, []string{"amd64"}, []string{"go1.21.0"}, p1([]string{"c", "v"}, []string{"s", "u"})),
